@@ -174,7 +174,7 @@ func dischargeAll(frs []*FuncResult, dir string, timeoutS, par int, filter func(
 			}
 			if (out.result == "timeout" || out.result == "unknown") && !j.o.Cover {
 				// retry with an explicit case split on the in-place/realloc outcome of each append
-				if so, ok := splitSolve(script, dir, base, to); ok {
+				if so, ok := splitSolve(script, dir, base, to, j.fr.Enc.splitVars[:j.o.NSplit]); ok {
 					out = so
 					j.o.Result = out.result
 					j.o.Backend = out.backend
@@ -211,10 +211,22 @@ func relaxScript(script string) string {
 var reFits = regexp.MustCompile(`\(declare-const (ap_fits![0-9]+) Bool\)`)
 
 // splitSolve: discharge by cases over the append outcome booleans (all cases must be unsat).
-func splitSolve(script, dir, base string, timeoutS int) (solveOut, bool) {
+func splitSolve(script, dir, base string, timeoutS int, branchVars []string) (solveOut, bool) {
 	m := reFits.FindAllStringSubmatch(script, -1)
-	if len(m) == 0 || len(m) > 4 {
+	if len(m) > 3 {
+		m = m[len(m)-3:]
+	}
+	// add the branch conditions closest to the obligation (at most 5 split variables in all)
+	for i := len(branchVars) - 1; i >= 0 && len(m) < 5; i-- {
+		if strings.Contains(script, "(declare-const "+branchVars[i]+" Bool)") {
+			m = append(m, []string{"", branchVars[i]})
+		}
+	}
+	if len(m) == 0 {
 		return solveOut{}, false
+	}
+	if timeoutS > 10 {
+		timeoutS = 10
 	}
 	total := 0.0
 	backend := ""
